@@ -43,7 +43,7 @@ func (r *Rng) distinct(pool []string, n int) []string {
 func (r *Rng) SchGen(cfg *SchGenCfg) *SchTy {
 	for {
 		t := r.schGen(cfg, 0, true)
-		if t.Depth() >= 1 {
+		if t.Depth() >= 1 && t.WF() {
 			return t
 		}
 	}
